@@ -78,7 +78,6 @@ use fuel_tx::{
     Chargeable,
     ConsensusParameters,
     FeeParameters,
-    Input,
     Output,
     Receipt,
     Script,
@@ -142,9 +141,7 @@ const R_AMT: u8 = 0x10; // scratch
 const R_T1: u8 = 0x11;
 
 fn derived_asset(c: &ContractId, sub: &[u8; 32]) -> AssetId {
-    let mut v = c.to_vec();
-    v.extend_from_slice(sub);
-    AssetId::new(oracle::sha256(&v))
+    AssetId::new(oracle::sha256(&[c.as_ref(), &sub[..]]))
 }
 
 // ------------------------------------------------------------------ worlds
@@ -560,6 +557,13 @@ fn ceil_fee(gas: u64, price: u64, factor: u64) -> u128 {
     (p + f - 1) / f
 }
 
+fn rname(r: &Receipt) -> String {
+    format!("{r:?}")
+        .chars()
+        .take_while(|c| c.is_ascii_alphanumeric())
+        .collect()
+}
+
 fn kind(r: &Receipt) -> Option<&'static str> {
     Some(match r {
         Receipt::Transfer { .. } => "Transfer",
@@ -635,7 +639,9 @@ fn check_run(w: &W, names: &[String], body: &[Instruction], letter_lens: &[usize
 
     // ---------------- step-wise run: oracles (2) and (3)
     let mut vm = w.world.vm(script.clone(), gas_limit);
+    let mut table_ok = true;
     if let Some(m) = table_mismatch(w, &vm) {
+        table_ok = false;
         rep.viols.push(("C27:memtable:init".into(), format!("after initialisation: {m}")));
     }
     let mut prev = snap(w, &vm);
@@ -754,11 +760,17 @@ fn check_run(w: &W, names: &[String], body: &[Instruction], letter_lens: &[usize
                 }
             }
         }
-        if let Some(m) = table_mismatch(w, &vm) {
-            rep.viols.push((
-                format!("C27:memtable:{opname}"),
-                format!("after step {steps} ({opname}, result {}): {m}", s.label()),
-            ));
+        // reported at the step that introduces a difference (later steps inherit it)
+        match table_mismatch(w, &vm) {
+            Some(m) if table_ok => {
+                table_ok = false;
+                rep.viols.push((
+                    format!("C27:memtable:{opname}"),
+                    format!("after step {steps} ({opname}, result {}): {m}", s.label()),
+                ));
+            }
+            Some(_) => {}
+            None => table_ok = true,
         }
         prev = now;
         match &s {
@@ -959,15 +971,15 @@ fn check_run(w: &W, names: &[String], body: &[Instruction], letter_lens: &[usize
         .iter()
         .flat_map(|c| w.ledger_assets.iter().map(|a| cbal(&e2e.storage, c, a)).collect::<Vec<_>>())
         .collect();
-    let rk: Vec<(u8, u64)> = e2e
+    let rk: Vec<(String, u64)> = e2e
         .receipts
         .iter()
-        .map(|r| (r.repr() as u8, r.amount().or(r.val()).unwrap_or(0)))
+        .map(|r| (rname(r), r.amount().or(r.val()).unwrap_or(0)))
         .collect();
     rep.fp = hash64(&(&w.name, &rep.outcome, outs, fins, rk, gas_limit == GENEROUS_GAS));
     rep.summary = json!({
         "world": w.name, "letters": names, "gas_limit": gas_limit, "result": rep.outcome, "gas_used": gas_used,
-        "steps": steps, "receipts": e2e.receipts.iter().map(|r| format!("{:?}", r.repr())).collect::<Vec<_>>(),
+        "steps": steps, "receipts": e2e.receipts.iter().map(rname).collect::<Vec<_>>(),
         "ledger": ledger_json,
     });
     rep
